@@ -36,6 +36,9 @@ func panicSite(stack string) string {
 }
 
 func reportPanic(c *core.Ctx, prop, site string, sh gen.Shape, in []byte, pv any, stack string) {
+	if !strings.HasPrefix(core.PanicCulprit(stack), "github.com/go-i2p/") {
+		return // a harness panic: already recorded as a floor failure by core.Call
+	}
 	s := gen.Shape{}
 	for k, v := range sh {
 		s[k] = v
@@ -108,7 +111,11 @@ func checkC04(c *core.Ctx, pc pcase) {
 			sh := pc.fullShape()
 			sh["method"] = o.Name
 			sh["panic_at"] = panicSite(o.Stack)
-			c.ViolateP("C04", pc.p.Name+"->"+o.Name, "method-panic", sh, pc.in, o.Panic, o.Stack)
+			if strings.HasPrefix(core.PanicCulprit(o.Stack), "github.com/go-i2p/") {
+				c.ViolateP("C04", pc.p.Name+"->"+o.Name, "method-panic", sh, pc.in, o.Panic, o.Stack)
+			} else {
+				c.FloorFail("harness panic while invoking " + o.Name + ": " + o.Panic)
+			}
 		}
 	}
 	if len(obs) > 0 {
